@@ -180,7 +180,7 @@ class Built:
                 cls=cls_of(o),
                 fields=[[list(k.encode("utf-8")), ev(v)] for k, v in x.values.items()],
                 meta=x._meta,
-                task=None if (x.task is None or x.task is o) else ref(x.task),
+                task=None if x.task is None else ref(x.task),     # a submitted task is its own task
                 selftask=x.task is o,
                 pre=[ref(p) for p in x.pre_tasks],
                 init=[ref(p) for p in x.init_tasks],
